@@ -132,7 +132,10 @@ def run(ctx):
     ctx.cov['replay'] = dict(cases=len(cases), disagreements=bad, representation_classes=reprs,
                              disagreements_by_text=by_text)
     rejected = 0
+    main_ok = {sig(c) for c, o in zip(cases, obs) if o.get('exit') == 0 and o.get('ident') == 'PASS'}
     for t, o in zip(ctl, cobs):
+        if sig(t['case']) not in main_ok:
+            continue            # the case itself disagrees (reported above): it cannot serve as a control
         if 2 in t['case']['unit']:
             rejected += 1       # texts with CR are subject to the known finding: not usable as controls
             continue
